@@ -35,6 +35,7 @@ class Tr:
     def __init__(self, inline=None, rename=None):
         self.inline = inline or {}
         self.rename = rename or {}
+        self.oracles = []          # external functions answered through the environment: at most one call of each per fragment
 
     def var(self, name):
         return _cstr(self.rename.get(name, name))
@@ -61,6 +62,8 @@ class Tr:
             if isinstance(e.op, ast.USub) and isinstance(e.operand, ast.Constant) and isinstance(e.operand.value, int) \
                     and not isinstance(e.operand.value, bool):
                 return '(EInt %s)' % _z(-e.operand.value)
+            if isinstance(e.op, ast.USub):
+                return '(ENeg %s)' % self.expr(e.operand)
             raise TranslateError('unsupported unary operator in ' + ast.unparse(e))
         if isinstance(e, ast.BinOp):
             if type(e.op) not in BINOPS:
@@ -102,10 +105,21 @@ class Tr:
             return '(EIndex %s %s)' % (self.expr(e.value), self.expr(e.slice))
         if isinstance(e, ast.List):
             return '(EList [%s])' % '; '.join(self.expr(x) for x in e.elts)
+        if isinstance(e, ast.ListComp):
+            if len(e.generators) != 1:
+                raise TranslateError('nested comprehension')
+            g = e.generators[0]
+            if g.ifs or g.is_async or not isinstance(g.target, ast.Name):
+                raise TranslateError('unsupported comprehension ' + ast.unparse(e))
+            return '(EListComp %s %s %s)' % (self.var(g.target.id), self.expr(e.elt), self.expr(g.iter))
         if isinstance(e, ast.DictComp):
             if len(e.generators) != 1:
                 raise TranslateError('nested comprehension')
             g = e.generators[0]
+            if not g.ifs and not g.is_async and isinstance(g.target, ast.Tuple) and len(g.target.elts) == 2 \
+                    and all(isinstance(x, ast.Name) for x in g.target.elts) and self._is_enumerate(g.iter):
+                return '(EDictEnum %s %s %s %s %s)' % (self.var(g.target.elts[0].id), self.var(g.target.elts[1].id),
+                                                       self.expr(e.key), self.expr(e.value), self.expr(g.iter.args[0]))
             if g.ifs or g.is_async or not isinstance(g.target, ast.Name) or not self._is_range1(g.iter):
                 raise TranslateError('unsupported comprehension ' + ast.unparse(e))
             return '(EDictRange %s %s %s %s)' % (self.var(g.target.id), self.expr(e.key), self.expr(e.value),
@@ -115,15 +129,27 @@ class Tr:
         raise TranslateError('unsupported expression ' + ast.unparse(e))
 
     @staticmethod
+    def _is_enumerate(c):
+        return isinstance(c, ast.Call) and isinstance(c.func, ast.Name) and c.func.id == 'enumerate' and len(c.args) == 1 \
+            and not c.keywords
+
+    @staticmethod
     def _is_range1(c):
         return isinstance(c, ast.Call) and isinstance(c.func, ast.Name) and c.func.id == 'range' and len(c.args) == 1 \
             and not c.keywords
 
     def call(self, c):
         f = c.func
+        if isinstance(f, ast.Attribute) and isinstance(f.value, ast.Name) and f.value.id == 'np' and f.attr == 'zeros' \
+                and len(c.args) == 1 and len(c.keywords) == 1 and c.keywords[0].arg == 'dtype' \
+                and isinstance(c.keywords[0].value, ast.Name) and c.keywords[0].value.id == 'int':
+            return '(EZeros %s)' % self.expr(c.args[0])
         if c.keywords:
             raise TranslateError('keyword arguments in ' + ast.unparse(c))
         if isinstance(f, ast.Name):
+            if f.id == 'list' and len(c.args) == 1 and isinstance(c.args[0], ast.Call) and not c.args[0].args \
+                    and not c.args[0].keywords and isinstance(c.args[0].func, ast.Attribute) and c.args[0].func.attr == 'values':
+                return '(EDictValues %s)' % self.expr(c.args[0].func.value)
             if f.id == 'int' and len(c.args) == 1:
                 return '(EIntOf %s)' % self.expr(c.args[0])
             if f.id == 'len' and len(c.args) == 1:
@@ -133,6 +159,13 @@ class Tr:
         if isinstance(f, ast.Attribute):
             if f.attr == 'pop' and isinstance(f.value, ast.Name) and len(c.args) == 1:
                 return '(EPop %s %s)' % (self.var(f.value.id), self.expr(c.args[0]))
+            if f.attr == 'array' and isinstance(f.value, ast.Name) and f.value.id == 'np' and len(c.args) == 1:
+                return self.expr(c.args[0])       # np.array(list): an array is the list of its entries
+            if f.attr == 'argsort' and isinstance(f.value, ast.Name) and f.value.id == 'np' and len(c.args) == 1:
+                if 'np.argsort' in self.oracles:
+                    raise TranslateError('np.argsort is called twice in one fragment')
+                self.oracles.append('np.argsort')
+                return '(EOracle "np.argsort" %s)' % self.expr(c.args[0])
             if f.attr == 'sort' and isinstance(f.value, ast.Name) and f.value.id == 'np' and len(c.args) == 1:
                 a = c.args[0]
                 if isinstance(a, ast.Subscript) and isinstance(a.slice, ast.Tuple) and len(a.slice.elts) == 2:
@@ -174,6 +207,10 @@ class Tr:
                 raise TranslateError('for ... else')
             if isinstance(s.target, ast.Name) and self._is_range1(s.iter):
                 return '(SForRange %s %s\n %s)' % (self.var(s.target.id), self.expr(s.iter.args[0]), self.block(s.body))
+            if isinstance(s.target, ast.Tuple) and len(s.target.elts) == 2 and all(isinstance(x, ast.Name) for x in s.target.elts) \
+                    and self._is_enumerate(s.iter):
+                return '(SForEnum %s %s %s\n %s)' % (self.var(s.target.elts[0].id), self.var(s.target.elts[1].id),
+                                                     self.expr(s.iter.args[0]), self.block(s.body))
             if isinstance(s.target, ast.Tuple) and all(isinstance(x, ast.Name) for x in s.target.elts) \
                     and isinstance(s.iter, ast.Name):
                 return '(SForRows [%s] %s\n %s)' % ('; '.join(self.var(x.id) for x in s.target.elts), self.expr(s.iter),
@@ -302,6 +339,10 @@ def pycuts():
         raise TranslateError('get_labels: expected one loop under `if return_dendrogram:`')
     k = loops[0]
     out.append('Definition src_reduce_init : list string := %s.' % _strs([ast.unparse(s) for s in blk[:k]]))
+    out.append('Definition src_reduce_init_stmt : stmt :=\n %s.' % Tr().block(blk[:k]))
+    if ifs[0].orelse and [ast.unparse(x) for x in ifs[0].orelse] != ['return labels']:
+        raise TranslateError('get_labels: the else branch of `if return_dendrogram:` is not `return labels`')
+    out.append('Definition src_get_labels_head : stmt :=\n %s.' % Tr().block(b[:b.index(ifs[0])]))
     out.append('Definition src_reduce_loop : stmt :=\n %s.' % Tr().stmt(blk[k]))
     out.append('Definition src_reduce_after : list string := %s.' % _strs([ast.unparse(s) for s in blk[k + 1:]]))
     out.append('Definition src_get_labels_before : list string := %s.' % _strs([ast.unparse(s) for s in b[:b.index(ifs[0])]]))
